@@ -36,6 +36,7 @@ type Scenario struct {
 	Second  bool          `json:"second"` // attempt a second writer on the locked directory
 	Ids     []string      `json:"ids"`
 	NoClose bool          `json:"no_close"`
+	MergeWindow int       `json:"merge_window"` // hold a merge in flight until this many batches landed in its window
 	RootObs   bool        `json:"root_obs"` // observe a fresh reader after every root replacement
 	CloseLast bool        `json:"close_last"` // Close is called only when nothing else can run (background work completes)
 }
@@ -389,6 +390,16 @@ func Run(t *testing.T, scn Scenario, sched Scheduler, workDir string, uidBase *i
 					_ = w2.Close()
 				}
 				c.LogP("w2", "SecondOpen", "err", fmt.Sprint(err), "refused", err != nil)
+				// a refused attempt must not have harmed the first writer's lock: try again
+				c.GateAt("second.open")
+				cfg3 := bluge.DefaultConfig(opts.Path)
+				ic3 := cfg3.VerifIndexConfig()
+				ic3.NumAnalysisWorkers = 0
+				w3, err := bluge.OpenWriter(cfg3.VerifWithIndexConfig(ic3))
+				if err == nil {
+					_ = w3.Close()
+				}
+				c.LogP("w2", "SecondOpen", "err", fmt.Sprint(err), "refused", err != nil)
 			}()
 		}
 		closed := make(chan struct{})
@@ -449,6 +460,19 @@ func Run(t *testing.T, scn Scenario, sched Scheduler, workDir string, uidBase *i
 					c.Log("Stuck")
 				}
 				break
+			}
+			if scn.MergeWindow > 0 {
+				if mp, nb := c.MergeWindow(); mp != "" && nb < scn.MergeWindow {
+					var gs2 []*ctl.Gate
+					for _, g := range gs {
+						if g.Proc != mp && g.Name != "close.call" {
+							gs2 = append(gs2, g)
+						}
+					}
+					if len(gs2) > 0 {
+						gs = gs2
+					}
+				}
 			}
 			if scn.CloseLast && len(gs) > 1 {
 				var gs2 []*ctl.Gate
